@@ -8,7 +8,7 @@
    and into_owned() really copy needle, searcher, pos and prestate is decided by
    the correspondence on operation histories, not here. *)
 From Memchr Require Import Spec SpecProofs Params Sub.Prefilter Sub.TwoWay Sub.TwoWayCert
-  Sub.Searcher Sub.SearcherProofs Sub.FindIter Sub.FindIterProofs.
+  Sub.Searcher Sub.SearcherProofs Sub.FindIter Sub.FindIterProofs Sub.TwoWayTier2 Sub.TwoWayTier2Rev.
 
 Example C16_saturating_multiply : pre_mul_saturating = true.
 Proof. reflexivity. Qed.
@@ -78,6 +78,30 @@ Proof.
     destruct (fst (fiter_run ar f a h k2 it')); reflexivity.
 Qed.
 
+Lemma fwd_cert_always : forall ar x, tw_reach_fwd ar x = true -> tw_cert_fwd_of x = true.
+Proof.
+  intros ar x H. apply tw_cert_fwd_all. unfold tw_reach_fwd in H. apply andb_true_iff in H as [H _].
+  apply Nat.leb_le in H. lia.
+Qed.
+Lemma rev_cert_always : forall x, tw_reach_rev x = true -> tw_cert_rev_of x = true.
+Proof. intros x H. apply tw_cert_rev_all. unfold tw_reach_rev in H. apply Nat.leb_le in H. lia. Qed.
+
+(* unconditional forms (Tier 2) *)
+Theorem C16_reuse : forall cfg rank ar x f,
+  bytes_ok x -> fst (finder_new cfg rank ar x) = Ok f ->
+  forall (hs : list (list N)) (a : nat) (st : prestate),
+  Forall bytes_ok hs ->
+  Forall (fun h => exists r, fst (searcher_find ar (f_searcher f) st a h (f_needle f)) = Ok r /\ fst r = find_spec x h) hs.
+Proof. intros cfg rank ar x f Hx Hf. apply (C16_reuse_partial cfg rank ar x f Hx Hf). apply fwd_cert_always. Qed.
+
+Theorem C16_reuse_rev : forall ar x f,
+  bytes_ok x -> fst (rfinder_new x) = Ok f ->
+  forall (hs : list (list N)) (a : nat), Forall bytes_ok hs ->
+  Forall (fun h => fst (rfinder_rfind ar f a h) = Ok (rfind_spec x h)) hs.
+Proof. intros ar x f Hx Hf. apply (C16_reuse_rev_partial ar x f Hx Hf). apply rev_cert_always. Qed.
+
+Print Assumptions C16_reuse.
+Print Assumptions C16_reuse_rev.
 Print Assumptions C16_reuse_partial.
 Print Assumptions C16_reuse_rev_partial.
 Print Assumptions C16_needle.
